@@ -2,6 +2,8 @@ import UsualProofs.C03.RoundTrip
 import UsualProofs.C03.BuildInv
 import UsualProofs.C03.ParseWf
 import UsualProofs.C03.Utf8Link
+import UsualProofs.C03.EndToEnd
+import UsualProofs.C03.Forest
 /-!
 # C03 — JSON render/parse round trip and builder consistency
 
@@ -84,14 +86,19 @@ example : (JVal.dict [([], .list [.int (-9007199254740991), .float 1, .float 0x8
 
 /-! ## builder -/
 
-/-- heaps reachable by builder calls from a fresh context (repaired code) -/
-def reach (ops : List Op) : Heap := (Heap.run true {} ops).1
+/-- heaps reachable by builder calls from a fresh context (code with repair F2; `cyc` says
+whether the proposed repair F38 — refuse attaching a container below itself — is present:
+every theorem of this section holds for both) -/
+def reachC (cyc : Bool) (ops : List Op) : Heap := (Heap.run true cyc {} ops).1
+
+/-- reachable heaps of the code as it is in the repository (F2 repaired, no cycle check) -/
+abbrev reach (ops : List Op) : Heap := reachC false ops
 
 /-- **json_value_size = number of elements iteration visits**, in every state reachable by any
 sequence of builder calls including failing ones, for every container. -/
-theorem size_eq_iter (ops : List Op) (p : Option Nat) (l : List Nat)
-    (hl : (reach ops).iter p = some l) : (reach ops).valueSize p = l.length :=
-  (SizeInv.run SizeInv.empty ops).size_eq_iter p l hl
+theorem size_eq_iter (cyc : Bool) (ops : List Op) (p : Option Nat) (l : List Nat)
+    (hl : (reachC cyc ops).iter p = some l) : (reachC cyc ops).valueSize p = l.length :=
+  (SizeInv.run SizeInv.empty cyc ops).size_eq_iter p l hl
 
 /-- non-vacuity: duplicate key, invalid UTF-8 key, out-of-range int, NaN, re-attachment, NULL -/
 example : let h := reach [.newDict, .newList, .putS 0 [0x61] (.int 1), .putS 0 [0x61] (.int 2),
@@ -104,27 +111,27 @@ example : let h := reach [.newDict, .newList, .putS 0 [0x61] (.int 1), .putS 0 [
 /-- **Defect F2 (code as found).**  With `v_size++` before `cbtree_insert`, a refused duplicate
 `json_dict_put` leaves `json_value_size` = 2 while iteration visits 1 element. -/
 theorem size_eq_iter_fails_before_F2 :
-    ∃ ops p l, let h := (Heap.run false {} ops).1
+    ∃ ops p l, let h := (Heap.run false false {} ops).1
       h.iter p = some l ∧ h.valueSize p ≠ l.length :=
   ⟨[.newDict, .putS 0 [0x61] (.int 1), .putS 0 [0x61] (.int 2)], some 0, [1], by decide⟩
 
 /-- **A value is attached to at most one container**: in every reachable state every value is
 linked (as list element or dict member, counted with multiplicity over all containers) at most
 once, and a value still `UNATTACHED` is linked from nowhere. -/
-theorem attach_at_most_once (ops : List Op) (id : Nat) :
-    occ (reach ops) id ≤ 1 ∧ (¬ isAtt (reach ops) id → occ (reach ops) id = 0) :=
-  (AttInv.run AttInv.empty ops) id
+theorem attach_at_most_once (cyc : Bool) (ops : List Op) (id : Nat) :
+    occ (reachC cyc ops) id ≤ 1 ∧ (¬ isAtt (reachC cyc ops) id → occ (reachC cyc ops) id = 0) :=
+  (AttInv.run AttInv.empty cyc ops) id
 
 /-- … and an attached value is refused by both attaching calls, which then change nothing. -/
-theorem attach_refused (h : Heap) (l d : Option Nat) (key : Bytes) (v : Nat)
+theorem attach_refused (cyc : Bool) (h : Heap) (l d : Option Nat) (key : Bytes) (v : Nat)
     (ha : isAtt h v) :
-    h.listAppend l (some v) = (h, false) ∧ h.dictPut true d key (some v) = (h, false) := by
+    h.listAppend cyc l (some v) = (h, false) ∧ h.dictPut true cyc d key (some v) = (h, false) := by
   obtain ⟨vc, hvc, hatt⟩ := ha
   constructor
-  · rcases listAppend_cases h l (some v) with e | ⟨vi, vc', _, _, _, _, hv, _, hc, hf, _, _⟩
+  · rcases listAppend_cases cyc h l (some v) with e | ⟨vi, vc', _, _, _, _, hv, _, hc, hf, _, _, _⟩
     · exact e
     · cases hv; rw [hvc] at hc; cases hc; rw [hatt] at hf; cases hf
-  · rcases dictPut_cases h d key (some v) with e | ⟨vi, vc', _, _, _, _, _, hv, _, hc, hf, _, _⟩
+  · rcases dictPut_cases cyc h d key (some v) with e | ⟨vi, vc', _, _, _, _, _, hv, _, hc, hf, _, _, _, _, _⟩
     · exact e
     · cases hv; rw [hvc] at hc; cases hc; rw [hatt] at hf; cases hf
 
@@ -133,17 +140,17 @@ example : let h := reach [.newList, .newList, .new (.int 7), .append (some 0) (s
 
 /-- **Everything the builder can produce is well-formed** (hence renders to an RFC document that
 parses back to the same tree): the value tree hanging off any cell of any reachable heap. -/
-theorem built_wf (ops : List Op) (i : Nat) (v : JVal) (hv : (reach ops).value i = some v) :
-    v.wf = true :=
-  toVal_wf (SizeInv.run SizeInv.empty ops) _ i v hv
+theorem built_wf (cyc : Bool) (ops : List Op) (i : Nat) (v : JVal)
+    (hv : (reachC cyc ops).value i = some v) : v.wf = true :=
+  toVal_wf (SizeInv.run SizeInv.empty cyc ops) _ i v hv
 
 /-- round trip for trees built through the API -/
 theorem built_roundtrip (strtod : Bytes → Option UInt64) (fmt17 : UInt64 → Bytes)
     (hsyn : ∀ x, isFinite x = true → floatTok (renderFloat fmt17 x) = true)
     (hf : ∀ x, isFinite x = true → strtod (renderFloat fmt17 x) = some x)
-    (ops : List Op) (i : Nat) (v : JVal) (hv : (reach ops).value i = some v) :
+    (cyc : Bool) (ops : List Op) (i : Nat) (v : JVal) (hv : (reachC cyc ops).value i = some v) :
     Rfc.parse strtod (render fmt17 v) = some v :=
-  render_parse_roundtrip strtod fmt17 hsyn hf v (built_wf ops i v hv)
+  render_parse_roundtrip strtod fmt17 hsyn hf v (built_wf cyc ops i v hv)
 
 example : (reach [.newDict, .newList, .putS 0 [0x62] (.float 1), .put (some 0) [0x61] (some 1),
       .appendS 1 (.str [0xE2, 0x80, 0xA9]), .appendS 1 .null]).value 0 =
@@ -187,6 +194,115 @@ theorem new_string_check_is_utf8_validate_string (s : Bytes) :
 
 example : Usual.C11.validateStringU [0x41, 0xE2, 0x80, 0xA8, 0xF4, 0x8F, 0xBF, 0xBF] = true ∧
     Usual.C11.validateStringU [0xED, 0xA0, 0x80] = false ∧ validString [0xED, 0xA0, 0x80] = false := by
+  decide
+
+/-! ## end to end: `json_parse (json_render v) = v` (composition with property C02) -/
+
+/-- **The property's sentence with `json_parse` in it.**  `Usual.C02.parse sd o` is the model of
+`json_parse` with option set `o` (property C02: state table extracted from `json.c`, tied to the
+code by C02's correspondence run); `sd` is the platform's `strtod` (bits, bytes consumed).  For
+every well-formed tree whose member names fit `JSON_MAX_KEY` (1 MiB — `json_dict_put` and the
+parser both refuse longer names), under all four option sets, parsing the rendered document
+yields exactly the tree.  The three hypotheses are the libc facts: the `%.17g` text (+ `.0`) of a
+finite double is an RFC number token (`hsyn`), is shorter than `NUMBER_BUF` = 100 bytes (`hlen`;
+otherwise `render_float` itself fails), and `strtod` consumes all of it and returns the same
+bits (`hsd`).  No bound on the nesting depth. -/
+theorem json_parse_render_roundtrip (sd : Bytes → UInt64 × Nat) (fmt17 : UInt64 → Bytes)
+    (hsyn : ∀ x, isFinite x = true → floatTok (renderFloat fmt17 x) = true)
+    (hlen : ∀ x, isFinite x = true → (renderFloat fmt17 x).length < Usual.Gen.C02Tables.NUMBER_BUF)
+    (hsd : ∀ x, isFinite x = true → sd (renderFloat fmt17 x) = (x, (renderFloat fmt17 x).length))
+    (v : JVal) (hv : v.wf = true) (hk : v.shortKeys) (o : Usual.C02.Opts) :
+    Usual.C02.parse sd o (render fmt17 v) = .ok v :=
+  c02_parse_render sd fmt17 hsyn hlen hsd v hv hk o
+
+/-- … in particular for every tree reachable through the builder API -/
+theorem built_json_roundtrip (sd : Bytes → UInt64 × Nat) (fmt17 : UInt64 → Bytes)
+    (hsyn : ∀ x, isFinite x = true → floatTok (renderFloat fmt17 x) = true)
+    (hlen : ∀ x, isFinite x = true → (renderFloat fmt17 x).length < Usual.Gen.C02Tables.NUMBER_BUF)
+    (hsd : ∀ x, isFinite x = true → sd (renderFloat fmt17 x) = (x, (renderFloat fmt17 x).length))
+    (cyc : Bool) (ops : List Op) (i : Nat) (v : JVal) (hv : (reachC cyc ops).value i = some v)
+    (o : Usual.C02.Opts) : Usual.C02.parse sd o (render fmt17 v) = .ok v :=
+  c02_parse_render sd fmt17 hsyn hlen hsd v (built_wf cyc ops i v hv)
+    (toVal_shortKeys (SizeInv.run SizeInv.empty cyc ops) _ i v hv) o
+
+/-- non-vacuity: a (`%.17g`, `strtod`) pair satisfying the three hypotheses for all doubles -/
+example : (∀ x, isFinite x = true → floatTok (renderFloat fmtCanon x) = true) ∧
+    (∀ x, isFinite x = true → (renderFloat fmtCanon x).length < Usual.Gen.C02Tables.NUMBER_BUF) ∧
+    (∀ x, isFinite x = true →
+      sdCanonC (renderFloat fmtCanon x) = (x, (renderFloat fmtCanon x).length)) :=
+  ⟨fun x _ => by rw [renderFloat_canon]; exact floatTok_canon x,
+   fun x _ => by rw [renderFloat_canon]; exact fmtCanon_short x,
+   fun x _ => by rw [renderFloat_canon]; exact sdCanonC_canon x⟩
+
+/-! ## depth -/
+
+/-- `n` nested lists around `null` -/
+def nest : Nat → JVal
+  | 0 => .null
+  | n + 1 => .list [nest n]
+
+/-- **Every depth.**  The round trip (with `json_parse`'s model, all option sets) holds for trees
+of every nesting depth: `nest n` has depth exactly `n`.  The theorems above carry no depth
+hypothesis because neither model recurses on a machine stack: the C parser is iterative (parent
+pointers, no nesting limit — C02's model is a loop over tokens with an explicit container
+stack).  On the C side the only recursion is `json_render` → `render_any` → `render_list` /
+`render_dict` → `json_list_iter` / `cbtree_walk` → `list_elem_writer` / `dict_elem_writer` →
+`render_any`: a handful of small frames per nesting level, bounded only by the thread's stack.
+That is what the property's "nesting depth up to 512" keeps harmless, and it is exercised — not
+proved — by the check run (chains of depth 512 rendered and re-parsed under ASan). -/
+theorem roundtrip_every_depth (sd : Bytes → UInt64 × Nat) (fmt17 : UInt64 → Bytes)
+    (hsyn : ∀ x, isFinite x = true → floatTok (renderFloat fmt17 x) = true)
+    (hlen : ∀ x, isFinite x = true → (renderFloat fmt17 x).length < Usual.Gen.C02Tables.NUMBER_BUF)
+    (hsd : ∀ x, isFinite x = true → sd (renderFloat fmt17 x) = (x, (renderFloat fmt17 x).length))
+    (n : Nat) (o : Usual.C02.Opts) :
+    (nest n).depth = n ∧ Usual.C02.parse sd o (render fmt17 (nest n)) = .ok (nest n) := by
+  have hd : ∀ n, (nest n).depth = n := by
+    intro n; induction n with
+    | zero => rfl
+    | succ n ih => simp [nest, JVal.depth, depthList, ih]
+  have hw : ∀ n, (nest n).wf = true := by
+    intro n; induction n with
+    | zero => rfl
+    | succ n ih => simp [nest, JVal.wf, wfList, ih]
+  have hs : ∀ n, (nest n).shortKeys := by
+    intro n; induction n with
+    | zero => trivial
+    | succ n ih => exact ⟨ih, trivial⟩
+  exact ⟨hd n, c02_parse_render sd fmt17 hsyn hlen hsd _ (hw n) (hs n) o⟩
+
+example : render fmtCanon (nest 3) = [0x5B, 0x5B, 0x5B, 0x6E, 0x75, 0x6C, 0x6C, 0x5D, 0x5D, 0x5D] := by decide
+
+/-! ## cycles (proposed repair F38) -/
+
+/-- **Code as found: the API can build a structure that is not a tree.**  `l = json_new_list();
+json_list_append(l, l)` succeeds (the value *is* unattached), the list then contains itself, and
+no amount of fuel gives it a value tree: `json_render` recurses until the stack is exhausted.
+Such a structure is not a "value tree of nesting depth ≤ 512", so the round-trip clause does not
+speak about it, and `size_eq_iter` / `attach_at_most_once` hold on it (they are proved for every
+reachable heap) — which is why the check does not alarm on this. -/
+theorem cycle_reachable_without_F38 :
+    ∃ ops i, i < (reachC false ops).cells.length ∧ ∀ f, (reachC false ops).toVal f i = none := by
+  refine ⟨[.newList, .append (some 0) (some 0)], 0, by decide, ?_⟩
+  have hc : (reachC false [.newList, .append (some 0) (some 0)]).cells = [⟨.list [0] 1, true⟩] := rfl
+  intro f
+  induction f with
+  | zero => rfl
+  | succ f ih => simp [Heap.toVal, hc, ih, Heap.optList]
+
+/-- **With repair F38 every reachable builder state is a forest**: below every cell hangs a finite
+tree (some amount of fuel evaluates it), and that tree is well-formed — so `json_render`
+terminates on, and the round trip applies to, *every* value any sequence of builder calls can
+produce, not only to those that happen to be trees. -/
+theorem built_is_tree_with_F38 (ops : List Op) (i : Nat) (hi : i < (reachC true ops).cells.length) :
+    ∃ f v, (reachC true ops).toVal f i = some v ∧ v.wf = true ∧ v.shortKeys := by
+  obtain ⟨f, v, hv⟩ := (Forest.run Forest.empty AttInv.empty ops).total i hi
+  exact ⟨f, v, hv, toVal_wf (SizeInv.run SizeInv.empty true ops) f i v hv,
+    toVal_shortKeys (SizeInv.run SizeInv.empty true ops) f i v hv⟩
+
+/-- the two attempts that build a cycle today are refused under F38, everything else goes through -/
+example : (Heap.run true true {} [.newList, .append (some 0) (some 0), .newDict, .newList,
+      .put (some 1) [0x61] (some 2), .append (some 2) (some 1), .appendS 2 (.int 1)]).2 =
+    [.ptr (some 0), .flag false, .ptr (some 1), .ptr (some 2), .flag true, .flag false, .flag true] := by
   decide
 
 end UsualProps.C03
